@@ -22,7 +22,17 @@ func (c *Case) RebuildArgs() {
 	var list []string
 	listPath := ""
 	c.Spec.Stdin = nil
+	noPatches := c.Extra != nil && c.Extra["no_patches"] == "1"
 	for _, p := range c.Patches {
+		if noPatches {
+			// the patches of the case are decoys: the list file names none of them,
+			// and the first one waits on standard input, which nobody asked for
+			listPath = PatDir + "/list.txt"
+			if c.Spec.Stdin == nil {
+				c.Spec.Stdin = append(world.Bytes(nil), p.Data...)
+			}
+			continue
+		}
 		switch p.Via {
 		case "p":
 			args = append(args, "-p", relOrAbs(c, p.Path))
@@ -43,7 +53,12 @@ func (c *Case) RebuildArgs() {
 	c.Spec.Nodes = nodes
 	if listPath != "" {
 		text := strings.Join(list, "\n") + "\n"
-		switch c.Extra["list_style"] {
+		style := c.Extra["list_style"]
+		if noPatches {
+			text = map[string]string{"": "", "blank-lines": "\n\n\n"}[style]
+			style = ""
+		}
+		switch style {
 		case "blank-lines":
 			text = "\n" + strings.Join(list, "\n\n") + "\n\n"
 		case "ws-lines":
